@@ -278,6 +278,24 @@ def _constructor(op, tmp):
         import uuid
 
         return TS.create(base_file=tmp / f'{uuid.uuid4().hex}.nc')
+    if op == 'mg':  # GuardGen.tla "mg": merge two (copies of) prepared identified stores; merge opens them itself
+        import os
+        import shutil
+        import uuid
+
+        tpl = tmp / f'mgt-{os.getpid()}'
+        u = uuid.uuid4().hex
+        ins = []
+        for k in (1, 2):
+            shutil.copy(tpl / f'in{k}.nc', tmp / f'{u}-in{k}.nc')
+            ins.append(tmp / f'{u}-in{k}.nc')
+        TS.merge(output_store=tmp / f'{u}.aeic-store', input_stores=ins)
+
+        class _Merged:
+            def close(self):
+                pass
+
+        return _Merged()
     if op == 'fa':
         return TS.open()  # READ mode without a base file: refused by the argument check
     if op == 'fo':
@@ -383,8 +401,21 @@ def _script_job(job):
 
 def run_script(script, tmp) -> list[dict]:
     """Run a sequential script over two real threads; -> call/ret/close events."""
+    import os
     import queue
 
+    if any(cmd == 'mg' for _, cmd in script):
+        # the input stores of the merges: written once per process (by this thread, before the owner record is reset)
+        tpl = tmp / f'mgt-{os.getpid()}'
+        if not (tpl / 'in2.nc').exists():
+            from .store_replay import make_payload
+
+            tpl.mkdir(exist_ok=True)
+            for k in (1, 2):
+                ts = _store_cls().create(base_file=tpl / f'in{k}.nc')
+                ts.add(make_payload(k, 10 * k + 1))
+                ts.add(make_payload(k + 2, 10 * k + 2))
+                ts.close()
     _reset_guard()
     ev: list = []
     qs = {t: queue.Queue() for t in (1, 2)}
